@@ -1,7 +1,9 @@
 """C05 - literal rendering is equivalent to binding and cannot inject SQL.
 
 Functions under contract (real code): the `process` closures returned by String / Unicode (MSSQL _UnicodeLiteral) /
-  Integer / Numeric / Float / Boolean .literal_processor, _RenderISO8601NoT._literal_processor_* (DateTime, Date, Time) and the
+  Integer / Numeric / Float / Boolean .literal_processor, TypeDecorator.literal_processor (process_literal_param / fallback to
+  process_bind_param / plain impl, load_dialect_impl), Enum.literal_processor, Variant types, _Binary.literal_processor, the
+  dialects' own string types, _RenderISO8601NoT._literal_processor_* (DateTime, Date, Time) and the
   SQLite / Oracle date overrides; SQLCompiler.render_literal_value and its MySQL / PostgreSQL (backslash doubling) and MSSQL
   overrides; SQLCompiler.render_literal_bindparam (literal_binds), the post-compile path for literal_execute parameters
   (render_postcompile / real execution) and expanding IN with literal values.
@@ -14,6 +16,19 @@ Contract K.  wire(x) = what the server receives: the DBAPIs that %-format statem
   MySQL, and PostgreSQL with standard_conforming_strings off, additionally backslash escapes; MSSQL optional N prefix.
   [string]     for str s and T in {String, Unicode}, r = render_literal_value(s, T) and r = str(literal(s, T).compile(
                literal_binds)):  wire(r) is exactly ONE string-literal token and decodes to s.
+  [typed-string]  the same for every type that renders a quoted string literal, whatever its class: for T in the catalogue below
+               and str s, let b = what binding would send = T's real bind processor applied to the value (identity when there is
+               none; LargeBinary: value = s encoded as UTF-8, b = s).  r = render_literal_value(value, T), r = str(literal(value,
+               T).compile(literal_binds)): wire(r) is exactly ONE string-literal token and decodes to b;  the post-compile
+               rendering of select(bindparam(value, T, literal_execute=True)): its tokens equal those of the same statement for
+               the value "a" with that one string token replaced by b.
+               catalogue (generic, on all 11 variants): String(64), Text, UnicodeText, CHAR(8), Enum whose labels are the strings
+               of the scope (native and native_enum=False), String.with_variant(Text, every dialect), TypeDecorator(String) with
+               no methods, TypeDecorator(Text) with process_bind_param only, TypeDecorator(Unicode) with process_literal_param,
+               TypeDecorator over a TypeDecorator, TypeDecorator with load_dialect_impl -> the dialect's VARCHAR, LargeBinary;
+               + on the variants of each dialect its own string types (mysql VARCHAR NVARCHAR CHAR NCHAR TEXT TINYTEXT MEDIUMTEXT
+               LONGTEXT ENUM; postgresql VARCHAR CHAR TEXT CITEXT ENUM; mssql VARCHAR NVARCHAR CHAR NCHAR TEXT NTEXT; oracle
+               VARCHAR2 NVARCHAR2 VARCHAR NVARCHAR CHAR NCHAR CLOB NCLOB LONG; sqlite VARCHAR CHAR TEXT)
   [statement]  for the statement forms select(literal) / WHERE col = v / col IN (v, 'z') / INSERT / UPDATE with literal_binds
                and literal_execute parameters with render_postcompile: tokens(wire(sql(v))) equals tokens(wire(sql("x")))
                with every string token "x" replaced by v - the literal never changes the shape of the statement.
@@ -48,6 +63,8 @@ Contract K.  wire(x) = what the server receives: the DBAPIs that %-format statem
 
 Scope Bd (exhaustive): alphabet { ' " \\ % : ; - a newline u-umlaut } (10 characters)
   string      all strings of length 0..4 (quick, 11 111) / 0..5 (thorough, 111 111) x 11 variants x {String, Unicode} x 2 paths
+  typed       all strings of length 0..3 (quick) / 0..4 (thorough) through render_literal_value, of length 0..2 / 0..3 through
+              literal_binds and literal_execute x 11 variants x the [typed-string] catalogue (13 generic + 3..9 dialect types)
   sqlite raw  the same strings, `SELECT <literal>`
   statement   all strings of length 0..2 (quick) / 0..3 (thorough) x 11 variants x 6 statement forms
   engine      all strings of length 0..3 (quick) / 0..4 (thorough) x 5 executions on a table holding every string of the scope
@@ -69,9 +86,9 @@ import sqlite3
 
 import warnings
 
-from sqlalchemy import (BigInteger, Boolean, Column, Date, DateTime, Float, ForeignKey, ForeignKeyConstraint, Integer, MetaData,
-                        Numeric, String, Table, Time, Unicode, bindparam, case, create_engine, delete, exc, func, insert, literal,
-                        literal_column, or_, select, union_all, update)
+from sqlalchemy import (CHAR, BigInteger, Boolean, Column, Date, DateTime, Enum, Float, ForeignKey, ForeignKeyConstraint, Integer,
+                        LargeBinary, MetaData, Numeric, String, Table, Text, Time, TypeDecorator, Unicode, UnicodeText, bindparam, case,
+                        create_engine, delete, exc, func, insert, literal, literal_column, or_, select, union_all, update)
 from sqlalchemy.orm import Session, aliased, declarative_base, relationship, with_parent
 from sqlalchemy.dialects import mssql, mysql, oracle, postgresql, sqlite
 from sqlalchemy.dialects.mssql import pymssql
@@ -163,6 +180,167 @@ def string_clause(label, s, tname):
                              rendered=text, on_the_wire=wire))
         escaped = escaped or text not in ("'%s'" % s, "N'%s'" % s)
     return out, escaped, text
+
+
+# ------------------------------------------------------------------------------------------------ [typed-string]
+
+class _TDPlain(TypeDecorator):
+    """the minimal user type: nothing but an impl"""
+    impl = String
+    cache_ok = True
+
+
+class _TDBind(TypeDecorator):
+    """the typical user type: only process_bind_param is defined (literal rendering falls back to it)"""
+    impl = Text
+    cache_ok = True
+
+    def process_bind_param(self, value, dialect):
+        return None if value is None else "t:" + value
+
+
+class _TDLiteral(TypeDecorator):
+    """process_literal_param defined (consistently with process_bind_param)"""
+    impl = Unicode
+    cache_ok = True
+
+    def process_bind_param(self, value, dialect):
+        return None if value is None else value + ":b"
+
+    def process_literal_param(self, value, dialect):
+        return None if value is None else value + ":b"
+
+
+class _TDNested(TypeDecorator):
+    impl = _TDBind
+    cache_ok = True
+
+    def process_bind_param(self, value, dialect):
+        return None if value is None else value + value
+
+
+class _TDDialectImpl(TypeDecorator):
+    """load_dialect_impl switches to the dialect's own string type (the documented recipe shape)"""
+    impl = String
+    cache_ok = True
+
+    def load_dialect_impl(self, dialect):
+        mod = {"mysql": mysql, "mariadb": mysql, "postgresql": postgresql, "mssql": mssql, "oracle": oracle}.get(dialect.name)
+        return dialect.type_descriptor(mod.VARCHAR(64) if mod else String(64))
+
+
+_ENUM_LABELS = S.strings(ALPHABET, 3)
+# generic types that render a quoted string literal: name -> factory
+TYPED_GENERIC = {
+    "String(64)": lambda: String(64),
+    "Text": Text,
+    "UnicodeText": UnicodeText,
+    "CHAR(8)": lambda: CHAR(8),
+    "Enum(labels = the strings of the scope)": lambda: Enum(*_ENUM_LABELS, name="verif_e"),
+    "Enum(labels, native_enum=False)": lambda: Enum(*_ENUM_LABELS, native_enum=False),
+    "String.with_variant(Text, every dialect)": lambda: String().with_variant(Text(), "mysql", "mariadb", "postgresql", "mssql", "oracle", "sqlite"),
+    "TypeDecorator(String)": _TDPlain,
+    "TypeDecorator(Text) + process_bind_param": _TDBind,
+    "TypeDecorator(Unicode) + process_literal_param": _TDLiteral,
+    "TypeDecorator(TypeDecorator(Text))": _TDNested,
+    "TypeDecorator + load_dialect_impl": _TDDialectImpl,
+    "LargeBinary": LargeBinary,
+}
+# the dialects' own string types, evaluated on the variants of that dialect: dialect name -> (module, type names)
+TYPED_DIALECT = {
+    "mysql": (mysql, ("VARCHAR", "NVARCHAR", "CHAR", "NCHAR", "TEXT", "TINYTEXT", "MEDIUMTEXT", "LONGTEXT", "ENUM")),
+    "postgresql": (postgresql, ("VARCHAR", "CHAR", "TEXT", "CITEXT", "ENUM")),
+    "mssql": (mssql, ("VARCHAR", "NVARCHAR", "CHAR", "NCHAR", "TEXT", "NTEXT")),
+    "oracle": (oracle, ("VARCHAR2", "NVARCHAR2", "VARCHAR", "NVARCHAR", "CHAR", "NCHAR", "CLOB", "NCLOB", "LONG")),
+    "sqlite": (sqlite, ("VARCHAR", "CHAR", "TEXT")),
+}
+_TYPED = {}
+
+
+def typed_types(label):
+    """name -> type instance: the generic catalogue + the own string types of the variant's dialect"""
+    d = variant(label)[0]
+    if d.name not in _TYPED:
+        out = {k: f() for k, f in TYPED_GENERIC.items()}
+        mod, names = TYPED_DIALECT.get(d.name, (None, ()))
+        for n in names:
+            cls = getattr(mod, n)
+            if n == "ENUM":
+                out["%s.ENUM(labels)" % d.name] = cls(*_ENUM_LABELS, name="verif_e") if d.name == "postgresql" else cls(*_ENUM_LABELS)
+            else:
+                try:
+                    out["%s.%s" % (d.name, n)] = cls(16)
+                except TypeError:
+                    out["%s.%s" % (d.name, n)] = cls()
+        _TYPED[d.name] = out
+    return _TYPED[d.name]
+
+
+def _bound_text(type_, d, s):
+    """what binding the value would hand to the driver, as text: the type's REAL bind processor applied to the Python value
+    (LargeBinary: the Python value is s encoded; the driver gets those bytes - their text is s)"""
+    if isinstance(type_, LargeBinary):
+        return s.encode("utf-8"), s
+    bp = type_._cached_bind_processor(d)
+    b = bp(s) if bp else s
+    return s, b
+
+
+TYPED_PATHS = ("render_literal_value", "literal_binds", "literal_execute")
+
+
+def typed_render(label, type_, value, path):
+    d, comp, _, _, _ = variant(label)
+    if path == "render_literal_value":
+        return comp.render_literal_value(value, type_)
+    if path == "literal_binds":
+        return str(literal(value, type_).compile(dialect=d, compile_kwargs=LB))
+    return str(select(bindparam("p", value, type_, literal_execute=True)).compile(dialect=d, compile_kwargs=PC))
+
+
+_TYPED_SHAPE = {}
+
+
+def typed_string_clause(label, tname, s, paths):
+    """[typed-string] returns (failures, evaluations, nontrivial)"""
+    d, comp, style, bs, npre = variant(label)
+    type_ = typed_types(label)[tname]
+    out = []
+    n = nt = 0
+    try:
+        value, want = _bound_text(type_, d, s)
+    except Exception:  # the bind side refuses the value: nothing to be equivalent to
+        return out, 0, 0
+    if not isinstance(want, str):
+        return out, 0, 0
+    for path in paths:
+        try:
+            text = typed_render(label, type_, value, path)
+        except (exc.CompileError, exc.StatementError):
+            continue  # refused: allowed
+        n += 1
+        inp = dict(value=s, type=tname, path=path)
+        wire = S.driver_percent(text, style)
+        if path == "literal_execute":  # SELECT <literal> AS anon_1 [FROM DUAL]: the shape of the same statement for the value "x"
+            toks = None if wire is None else S.tokens(wire, bs, npre)
+            if (label, tname) not in _TYPED_SHAPE:
+                _, xwant = _bound_text(type_, d, "a")
+                ref = S.tokens(S.driver_percent(typed_render(label, type_, "a".encode() if isinstance(value, bytes) else "a", path), style), bs, npre)
+                _TYPED_SHAPE[(label, tname)] = (ref, xwant)
+            ref, xwant = _TYPED_SHAPE[(label, tname)]
+            expect = [("str", want) if t == ("str", xwant) else t for t in ref]
+            if toks != expect:
+                out.append(_fail("typed-string-literal", "%s/%s literal rendering" % (path, type(type_).__name__), label, inp,
+                                 [list(t) for t in expect], None if toks is None else [list(t) for t in toks], rendered=text, on_the_wire=wire))
+                continue
+        else:
+            dec = None if wire is None else S.decode_single_literal(wire, bs, npre)
+            if dec != want:
+                out.append(_fail("typed-string-literal", "%s/%s literal rendering" % (path, type(type_).__name__), label, inp, want, dec,
+                                 rendered=text, on_the_wire=wire))
+                continue
+        nt += ("'%s'" % want) not in text  # the rendering had to escape something
+    return out, n, nt
 
 
 # ------------------------------------------------------------------------------------------------ [statement]
@@ -892,6 +1070,19 @@ def _work(task):
                 if (escaped and not res["samples"] and len(s) > 2 and "'" in s and ("\\" in s or "%" in s)
                         and tname == ("Unicode" if "mssql" in label else "String") and res["nontrivial"] > 40 * list(VARIANTS).index(label)):
                     res["samples"].append(dict(dialect=label, type=tname, value=s, rendered=text))
+    elif kind == "typed":
+        _, label, strs, n_short = task
+        for tname in typed_types(label):
+            for v in strs:
+                f, n, nt = typed_string_clause(label, tname, v, TYPED_PATHS if len(v) <= n_short else TYPED_PATHS[:1])
+                res["evals"] += n
+                res["nontrivial"] += nt
+                res["refused"] += (len(TYPED_PATHS) if len(v) <= n_short else 1) - n
+                fails.extend(f)
+        tname = "TypeDecorator(Text) + process_bind_param"
+        v = max(strs, key=lambda x: (len(set(x) & set("'\\%")), x))
+        res["samples"].append(dict(dialect=label, type=tname, value=v, path="literal_binds",
+                                   rendered=typed_render(label, typed_types(label)[tname], v, "literal_binds")))
     elif kind == "statements":
         _, label, strs = task
         for v in strs:
@@ -978,14 +1169,14 @@ def _work(task):
     return res
 
 
-_PRIORITY = {"string-literal": 0, "value-literal": 0, "sqlite-select-literal": 1, "statement-shape": 2, "sqlite-rows": 3,
+_PRIORITY = {"string-literal": 0, "typed-string-literal": 0, "value-literal": 0, "sqlite-select-literal": 1, "statement-shape": 2, "sqlite-rows": 3,
              "source-text": 4, "source-rows": 4, "orm-criteria": 4, "source-cache": 5}
 
 
 def run(run, tier, seed, args):
     import sqlalchemy
     quick = tier == "quick"
-    n_str, n_stmt, n_eng = (4, 2, 3) if quick else (5, 3, 4)
+    n_str, n_stmt, n_eng, n_typed = (4, 2, 3, 3) if quick else (5, 3, 4, 4)
     nj = S.jobs()
     strs = S.strings(ALPHABET, n_str)
     tasks = []
@@ -996,6 +1187,8 @@ def run(run, tier, seed, args):
         for c in S.chunks(S.strings(ALPHABET, n_stmt), 1 if quick else 4):
             tasks.append(("statements", label, c))
         tasks.append(("values", label))
+        for c in S.chunks(S.strings(ALPHABET, n_typed), 2 if quick else nj):
+            tasks.append(("typed", label, c, n_typed - 1))
     eng_strs = S.strings(ALPHABET, n_eng)
     for c in S.chunks(eng_strs, nj):
         tasks.append(("engine", c, eng_strs))
@@ -1011,7 +1204,7 @@ def run(run, tier, seed, args):
         tasks.append(("source-cache", [tv], src_strs))
     for family in ORM_FAMILIES:
         tasks.append(("orm", family))
-    cost = {"source-cache": lambda t: 3000, "strings": lambda t: len(t[2]), "statements": lambda t: len(t[2]), "engine": lambda t: len(t[1]) * 5,
+    cost = {"source-cache": lambda t: 3000, "strings": lambda t: len(t[2]), "typed": lambda t: len(t[2]) * 3, "statements": lambda t: len(t[2]), "engine": lambda t: len(t[1]) * 5,
             "source-text": lambda t: len(t[2]) * 300, "source-engine": lambda t: len(t[1]) * 600, "orm": lambda t: 4000}
     tasks.sort(key=lambda t: -cost.get(t[0], lambda t: 0)(t))
     res = S.pmap(_work, tasks)
@@ -1026,12 +1219,13 @@ def run(run, tier, seed, args):
         d["nontrivial"] += r["nontrivial"]
     run.coverage.update(
         evaluations=sum(d["evaluations"] for d in by.values()),
-        distinct_nontrivial=(by["strings"]["nontrivial"] + by["values"]["nontrivial"] + by["source-text"]["nontrivial"]
-                             + by["orm"]["nontrivial"]),
+        distinct_nontrivial=(by["strings"]["nontrivial"] + by["typed"]["nontrivial"] + by["values"]["nontrivial"]
+                             + by["source-text"]["nontrivial"] + by["orm"]["nontrivial"]),
         rule="one evaluation = one real rendering (or one real execution) checked against the contract; inputs are exhaustive "
              "products, each (variant, type, value) enumerated once. Non-trivial, measured on the real output: (variant, type, "
              "string) triples whose rendering differs from plain '<value>' quoting, i.e. the processor had to escape a quote, a "
              "backslash or a percent sign; plus the (variant, type, value) boundary values that were rendered (not refused). "
+             "[typed-string]: (variant, type of the catalogue, string, path) whose rendering is not plain '<bound text>' quoting. "
              "The statement / engine parts re-use the same strings and are not added to distinct_nontrivial. [source]: "
              "(variant, form, type, value, source) tuples with a source other than the plain value and a non-NULL value whose "
              "literal text was produced and compared (source-engine re-uses them, not added); [orm-criteria]: (family, "
@@ -1042,12 +1236,16 @@ def run(run, tier, seed, args):
         failures_not_kept=sum(r.get("dropped_failures", 0) for r in res),
         samples=[s for k in by for s in [s for r in res if r["kind"] == k for s in r["samples"]][:3]],
         exhaustive=True,
-        scope="alphabet %r; strings of length 0..%d x %d variants x {String, Unicode} x 2 paths; statement forms %s for strings "
+        typed_string_types={lab: list(typed_types(lab)) for lab in ("default", "mysql+mysqldb", "postgresql+psycopg", "mssql+pyodbc", "oracle+oracledb",
+                                                                     "sqlite+pysqlite")},
+        scope="alphabet %r; strings of length 0..%d x %d variants x {String, Unicode} x 2 paths; [typed-string] strings of length "
+              "0..%d (render_literal_value) / 0..%d (literal_binds, literal_execute) x %d variants x %d generic string-rendering types "
+              "(sized / text / enum / variant / TypeDecorator shapes / LargeBinary) + each dialect's own string types; statement forms %s for strings "
               "0..%d; SQLite Engine executions for strings 0..%d; boundary value lists (module docstring); value sources %s "
               "(+ %s on the Engine) x %d statement forms %s x %d values (strings 0..%d + 6 adversarial, 4 integers, 2 floats, "
               "bool, datetime, None) x %d variants as text and on a SQLite Engine (String / Integer values); compiled-cache "
               "sharing between sources %s (values %s); ORM criteria %s x forms %s x instance states %s x 3 instances x families %s; sqlite3 %s"
-              % (ALPHABET, n_str, len(VARIANTS), sorted(FORMS), n_stmt, n_eng, SOURCES, EXEC_SOURCES, len(SRC_FORMS),
+              % (ALPHABET, n_str, len(VARIANTS), n_typed, n_typed - 1, len(VARIANTS), len(TYPED_GENERIC), sorted(FORMS), n_stmt, n_eng, SOURCES, EXEC_SOURCES, len(SRC_FORMS),
                  sorted(SRC_FORMS), len(src_vals), 1 if quick else 2, len(VARIANTS), CACHE_SOURCES, CACHE_VALUES, sorted(ORM_CRITERIA),
                  list(ORM_FORMS), list(ORM_STATES), list(ORM_FAMILIES), sqlite3.sqlite_version),
         sqlalchemy_tree=sqlalchemy.__file__,
@@ -1062,7 +1260,11 @@ def run(run, tier, seed, args):
         "NUL characters, lone surrogates, strings longer than the scope and characters outside the 10-character alphabet are outside",
         "[source]: executemany, bindparam values inside text() / lambda statements, ORM criteria with custom primaryjoin / "
         "remote_side / composite secondary, and loader strategies other than the lazy 'select' loader are outside",
-        "types not enumerated (Enum, Uuid, JSON, ARRAY, Interval, LargeBinary, TypeDecorator) and collation / charset conversion on the server are outside",
+        "[typed-string]: 'what binding sends' is the type's real bind processor applied to the value (identity when there is none); a "
+        "TypeDecorator whose process_literal_param deliberately differs from process_bind_param is outside; LargeBinary: the connection "
+        "character set is assumed to be UTF-8 (the text literal stands for the bytes of its UTF-8 encoding)",
+        "types not enumerated (Uuid, JSON and its index / path types, ARRAY, Interval, Enum over a Python enum class) and collation / "
+        "charset conversion on the server are outside",
     ]
 
 
@@ -1077,6 +1279,8 @@ def replay(data):
     elif clause == "statement-shape":
         f = statement_clause(label, inp["form"], v)
         fails = [f] if f else []
+    elif clause == "typed-string-literal":
+        fails, _, _ = typed_string_clause(label, inp["type"], v, [inp["path"]])
     elif clause == "sqlite-rows":
         strs = sorted({v, "a", ""})
         eng, t, ids = engine_setup(strs)
